@@ -39,6 +39,9 @@ var perProp = map[string][]rule{
 	"C09": {
 		{kind: "points", target: "verify/verify.go"},
 		{kind: "points", target: "gcetcbendorsement/sevvalidate.go"},
+		{kind: "points", target: "gcetcbendorsement/tdxvalidate.go"},
+		{kind: "points", target: "gcetcbendorsement/sevpolicy.go"},
+		{kind: "points", target: "gcetcbendorsement/tdxpolicy.go"},
 	},
 	"C13": {{kind: "export", target: "endorse_export.go", dest: "endorse/zz_verif_export.go"}},
 	"C16": {{kind: "export", target: "endorse_export.go", dest: "endorse/zz_verif_export.go"}, rpcmdExport},
@@ -370,9 +373,25 @@ func instrumentPoints(path, rel string) ([]byte, error) {
 		}
 		return out
 	}
+	// the body of a switch / type switch / select is a list of clauses, not of statements
+	clauseLists := map[*ast.BlockStmt]bool{}
+	ast.Inspect(f, func(n ast.Node) bool {
+		switch x := n.(type) {
+		case *ast.SwitchStmt:
+			clauseLists[x.Body] = true
+		case *ast.TypeSwitchStmt:
+			clauseLists[x.Body] = true
+		case *ast.SelectStmt:
+			clauseLists[x.Body] = true
+		}
+		return true
+	})
 	ast.Inspect(f, func(n ast.Node) bool {
 		switch x := n.(type) {
 		case *ast.BlockStmt:
+			if clauseLists[x] {
+				return true
+			}
 			x.List = weave(x.List)
 		case *ast.CaseClause:
 			x.Body = weave(x.Body)
